@@ -13,7 +13,7 @@ META = {
              'written again ...) whose last write is compared byte-for-byte with a fresh interpreter that builds the final '
              'specification alone and writes once; signature = the sequence of step kinds; non-trivial when the history '
              'contains at least one earlier write or an earlier foreign file'),
-    'required_obs': {'quick': ['compared', 'both-ok'] + ['step-' + k for k in STEP_KINDS]},
+    'required_obs': {'quick': ['compared', 'both-ok', 'shared-data-struct'] + ['step-' + k for k in STEP_KINDS]},
     'assumptions': ['origins carry explicit file_set_number and creation_time (the statement exempts random / now() defaults)',
                     'a real fresh interpreter (subprocess) executes the final specification',
                     'supplying the final data inline or through write(data=dict) is equivalent (C11)'],
@@ -25,6 +25,9 @@ META['required_obs']['thorough'] = META['required_obs']['quick']
 
 def cases(tier, seed):
     i = 0
+    # one caller-owned data object (structured array / dict / HDF5 file) re-used for every write of a history
+    for j in range(40 if tier == 'quick' else 1000):
+        yield {'stratum': 'shared-data-object', 'index': j, 'kind': 'shared-data'}
     for k in STEP_KINDS:
         for j in range(3 if tier == 'quick' else 20):
             yield {'stratum': 'single-step', 'index': i, 'kind': 'single', 'step': k}
@@ -205,9 +208,18 @@ def run_case(case):
 
     r = gen.rng(seed, PROP, case['stratum'], case['index'])
     avoid = metagen.default_avoid()
-    base = base_spec(r, avoid)
-    kinds = [case['step']] if case['kind'] == 'single' else [r.choice(STEP_KINDS) for _ in range(r.randint(1, 5))]
-    hist = {'base': base, 'phases': [{'ops': [], 'write': {'output_chunk_size': 2 ** 16}}], 'foreign_before': []}
+    if case['kind'] == 'shared-data':
+        base = gen.fastpath_spec(r) if r.random() < 0.6 else gen.frame_spec(r, sources=('struct', 'dict', 'hdf5'), casts=False)
+        base['write']['output_chunk_size'] = 2 ** 16
+        for k_ in ('from_idx', 'to_idx', 'input_chunk_size'):
+            base['write'].pop(k_, None)
+        kinds = [r.choice(['rewrite', 'other-window', 'other-chunks', 'rewrite']) for _ in range(r.randint(1, 3))]
+        hist = {'base': base, 'phases': [{'ops': [], 'write': {'output_chunk_size': 2 ** 16}}], 'foreign_before': [], 'shared_data': True}
+        bump('shared-data-' + base['write']['source'])
+    else:
+        base = base_spec(r, avoid)
+        kinds = [case['step']] if case['kind'] == 'single' else [r.choice(STEP_KINDS) for _ in range(r.randint(1, 5))]
+        hist = {'base': base, 'phases': [{'ops': [], 'write': {'output_chunk_size': 2 ** 16}}], 'foreign_before': []}
     if r.random() < 0.4 or kinds[0].startswith('foreign'):
         hist['foreign_before'].append(foreign_spec(r, base, r.choice(['names', 'values'])))
     ops = list(base['ops'])
